@@ -852,6 +852,17 @@ class MutableFileVersion:
             # careful on subsequent tries.
             d = self._update_servermap(mode=MODE_CHECK)
 
+        def _use_best_version(ignored):
+            # The servermap has just been refreshed. A competing writer may
+            # have replaced the version this object was created for: the
+            # modifier must be applied to the best recoverable version of
+            # the servermap we are about to publish against (see the
+            # pseudocode in modify()), not to a stale one.
+            best = self._servermap.best_recoverable_version()
+            if best is None:
+                raise UnrecoverableFileError("no recoverable versions")
+            self._version = best
+        d.addCallback(_use_best_version)
         d.addCallback(lambda ignored:
             self._modify_once(modifier, first_time))
         def _retry(f):
